@@ -305,7 +305,7 @@ pub fn run_files(args: &[String]) {
     let mut jobs: Vec<(usize, String, u64)> = Vec::new();
     let kinds = ["none", "value:commitment", "value:oods", "value:leaf", "value:auth", "value:fri_leaf", "value:memory", "swap:leaves", "swap:auth", "remove:leaf", "remove:auth", "remove:commitment",
                  "remove:nonce", "dup:leaf", "dup:commitment", "segment:unknown", "segment:remove", "hex:memory", "hex:memory:+", "hex:memory:0x_", "hex:memory:0xg", "hex:memory:empty", "hex:memory:0x", "hex:annotation", "hex:in-list", "pow_bits:255", "pow_bits:256", "pow_bits:300",
-                 "nonce:0", "nonce:max64", "nonce:2^64", "steps:empty", "steps:huge", "n_steps:odd", "n_steps:2^31", "last_bound:100", "page:1", "page:first", "page:last-listed-first", "memory:rotate", "memory:swap01", "rc", "nvf", "dyn:value", "dyn:remove", "layout:unknown"];
+                 "nonce:0", "nonce:max64", "nonce:2^64", "steps:empty", "steps:huge", "n_steps:odd", "n_steps:2^31", "last_bound:100", "page:1", "page:first", "page:last-listed-first", "memory:rotate", "memory:swap01", "rc", "nvf", "dyn:value", "dyn:remove", "dyn:cpu_step=8", "dyn:cpu_step=3", "dyn:cpu_step=0", "dyn:cols_first+1", "dyn:cols_second+1", "dup:fri_commit", "steps:drop-last", "steps:append", "layout:unknown"];
     for (fi, _) in files.iter().enumerate() { for k in kinds { for r in 0..(if k == "none" { 1 } else { per }) { jobs.push((fi, k.to_string(), r)); } } }
     let res = par_map(&jobs, n_threads(), |_, (fi, kind, r)| {
         let f = &files[*fi];
@@ -363,6 +363,17 @@ pub fn run_files(args: &[String]) {
             "rc" => { v["public_input"]["rc_min"] = json!(7); v["public_input"]["rc_max"] = json!(65535); }
             "nvf" => v["proof_parameters"]["n_verifier_friendly_commitment_layers"] = json!(17),
             "dyn:value" => { if let Some(o) = v["public_input"]["dynamic_params"].as_object_mut() { let k = o.keys().nth(rng.below(o.len() as u64) as usize).unwrap().clone(); o[&k] = json!(9); } else { applicable = false; } }
+            // the sizes and column counts of a dynamic-layout proof come from the file's own parameters
+            k if k.starts_with("dyn:cpu_step=") || k.starts_with("dyn:cols_") => { if let Some(o) = v["public_input"]["dynamic_params"].as_object_mut() {
+                match k { "dyn:cpu_step=8" => o["cpu_component_step"] = json!(8), "dyn:cpu_step=3" => o["cpu_component_step"] = json!(3), "dyn:cpu_step=0" => o["cpu_component_step"] = json!(0),
+                          "dyn:cols_first+1" => { let c = o["num_columns_first"].as_u64().unwrap(); o["num_columns_first"] = json!(c + 1); }
+                          _ => { let c = o["num_columns_second"].as_u64().unwrap(); o["num_columns_second"] = json!(c + 1); } }
+            } else { applicable = false; } }
+            // more (or fewer) FRI layer commitments than the step list implies: the proof carries what the file says
+            "dup:fri_commit" => { let c: Vec<usize> = find("STARK/FRI/Commitment/Layer").into_iter().filter(|i| ann[*i].contains("Commitment: Hash")).collect();
+                if let Some(i) = pick(&c, &mut rng) { let l = bump(&ann[i]); v["annotations"].as_array_mut().unwrap().insert(i + 1, json!(l)); } else { applicable = false; } }
+            "steps:drop-last" => { v["proof_parameters"]["stark"]["fri"]["fri_step_list"].as_array_mut().unwrap().pop(); }
+            "steps:append" => { v["proof_parameters"]["stark"]["fri"]["fri_step_list"].as_array_mut().unwrap().push(json!(1)); }
             "dyn:remove" => { if let Some(o) = v["public_input"]["dynamic_params"].as_object_mut() { let k = o.keys().nth(rng.below(o.len() as u64) as usize).unwrap().clone(); o.remove(&k); } else { applicable = false; } }
             "layout:unknown" => v["public_input"]["layout"] = json!("all_cairo"),
             o => panic!("edit {o}"),
